@@ -32,7 +32,7 @@ FSTO = {"n": "", "s": "static", "e": "extern", "i": "inline", "j": "extern inlin
 
 FID_INLINE = "inline-then-extern-not-emitted"
 FID_TLS_INIT = "thread-local-tentative-then-init"
-FID_TLS_BLOCK = "thread-local-mismatch-block-extern"
+FID_TLS_BLOCK = "thread-local-mismatch-unseen-block-extern"
 
 
 # ----------------------------------------------------------------------------- forms / rendering
@@ -318,7 +318,7 @@ class Judge:
                 fid = FID_INLINE
             elif "T" in dev and sv.startswith("ok") and code[0] == "reject":
                 fid = FID_TLS_INIT
-            elif sv == "violates c6_7_1p3_threadMismatchOtherScope" and code[0] == "ok":
+            elif sv == "violates c6_7_1p3_threadMismatchUnseenBlockExtern" and code[0] == "ok":
                 fid = FID_TLS_BLOCK
             if fid:
                 self.bump("finding %s" % fid)
